@@ -26,7 +26,8 @@ _gen_world = WP.make_gen_run(ID, EMPH, 300, 5000)
 
 def gen_run(exe, rng, tier):
     import worldhist as WH
-    return _gen_world(exe, rng, tier) + WH.run_parallel(exe, rng, 60 if tier == "quick" else 1500, WH.rewrite_history)
+    return (_gen_world(exe, rng, tier) + WH.run_parallel(exe, rng, 60 if tier == "quick" else 1500, WH.rewrite_history) +
+            WH.run_parallel(exe, rng, 12 if tier == "quick" else 300, WH.grow_history))
 project = WP.make_project(ID)
 relevant_verdict = WP.make_relevant(ID)
 
